@@ -95,28 +95,7 @@ def write_sites(ctx):
     cls_key = {A[t]['item_cls'].__name__: t for t in A}
     rng = ctx.rng('write-sites')
     n = 50 if ctx.tier == 'quick' else 600
-    def direct(k):
-        """Hand-made specifications reaching the sites random specifications rarely reach: FILE-ID left to the write, indexed
-        frames with / without the user's own index values and units, uniform and non-uniform (direction) index data."""
-        import numpy as np
-        from dliswriter import DLISFile
-        df = DLISFile()
-        lf = df.add_logical_file(fh_id='HDR-%d' % k)
-        o = lf.add_origin('O', file_set_number=3) if k % 2 else lf.add_origin('O', file_set_number=3, field_name='F')
-        if k % 2 == 0:
-            o.file_id.value = 'HDR-%d' % k
-        idx = np.array([0.0, 1.0, 2.0, 3.0]) if k % 3 else np.array([0.0, 1.0, 5.0, 6.5])
-        if k % 5 == 4:
-            idx = idx[::-1].copy()
-        c0 = lf.add_channel('DEPTH', data=idx, units='m' if k % 4 else None)
-        c1 = lf.add_channel('X', data=np.arange(4, dtype=np.int32))
-        kw = {}
-        if k % 7 == 3:
-            kw = {'index_min': {'value': -1.5, 'units': 'ft'}, 'spacing': 0.25}
-        if k % 7 == 5:
-            kw = {'direction': 'DECREASING', 'index_max': 99}
-        lf.add_frame('FR', channels=[c0, c1], index_type='BOREHOLE-DEPTH' if k % 6 else None, **kw)
-        return df
+    direct = impl.indexed_frame_spec
 
     for k in range(n + 24):
         if k < n:
